@@ -479,6 +479,13 @@ def run_C10(ctx):
     ctx.nontrivial = ctx.evaluations
 
 
+def run_C12_families(ctx):
+    # long programs (far branches / far calls / div-by-zero paths beyond index 65535) and the
+    # control-flow shapes of family cfg: compilation must not panic on them either
+    recs = exec_cases(ctx, "shapes", ["far", "farcall", "cfg", "calls"], 2 if ctx.quick else 1, timeout=1500)
+    replay_exec(ctx, "shapes", recs, ["jit", "cl"], claim=crash_only)
+
+
 def run_C12(ctx):
     import re
     # 1. the MC_Safety universe: every accepted program, every engine / helper set / VM kind
@@ -534,6 +541,7 @@ def run_C12(ctx):
     ctx.evaluations += summ["events"]
     ctx.extra["random_programs"] = summ["programs"]
     ctx.extra["compile_events_validated"] = validated
+    run_C12_families(ctx)
     # 3. size ladder, incl. every size around the first page boundary of the code buffer
     sizes = [1, 2, 1000, 65535, 65536, 999999] + (list(range(1338, 1372)) if not ctx.quick else list(range(1342, 1352)))
     lad = os.path.join(ctx.workdir, "ladder.json")
